@@ -4,6 +4,7 @@ import (
 	"fmt"
 	"reflect"
 	"sort"
+	"strconv"
 	"strings"
 
 	"github.com/go-openapi/spec"
@@ -849,7 +850,7 @@ func (sd *SpecAnalyser) schemaFromRef(ref spec.Ref, defns *spec.Definitions) (ac
 }
 
 func schemaLocationKey(location DifferenceLocation) string {
-	k := location.Method + location.URL + location.Node.Field + location.Node.TypeName
+	k := location.Method + location.URL + strconv.Itoa(location.Response) + location.Node.Field + location.Node.TypeName
 	if location.Node.ChildNode != nil && location.Node.ChildNode.IsArray {
 		k += location.Node.ChildNode.Field + location.Node.ChildNode.TypeName
 	}
